@@ -107,6 +107,43 @@ func extractSecure(p *pkgs, f *facts) {
 			f.miss = append(f.miss, "Client.Start: runner creation/start")
 		}
 	}
+	// SecureConfig.Check: the only call that writes into the hasher is io.Copy(<recv>.Hash, F) with F the variable that
+	// os.Open(<the path parameter>) was assigned to; F is not reassigned, nothing seeks it
+	whole := false
+	if ck := p.fn("SecureConfig", "Check"); ck != nil && len(ck.Recv.List[0].Names) == 1 {
+		recv := ck.Recv.List[0].Names[0].Name
+		fileVar := ""
+		assigns := map[string]int{}
+		copies, okCopies, seeks := 0, 0, 0
+		ast.Inspect(ck.Body, func(n ast.Node) bool {
+			switch v := n.(type) {
+			case *ast.AssignStmt:
+				for _, l := range v.Lhs {
+					assigns[exprString(l)]++
+				}
+				if len(v.Rhs) == 1 && strings.HasPrefix(exprString(v.Rhs[0]), "os.Open(") && len(v.Lhs) >= 1 {
+					fileVar = exprString(v.Lhs[0])
+				}
+			case *ast.CallExpr:
+				fn := exprString(v.Fun)
+				if fn == "io.Copy" || fn == "io.CopyN" || fn == "io.CopyBuffer" || strings.HasSuffix(fn, ".Hash.Write") {
+					copies++
+					if fn == "io.Copy" && len(v.Args) == 2 && exprString(v.Args[0]) == recv+".Hash" && fileVar != "" && exprString(v.Args[1]) == fileVar {
+						okCopies++
+					}
+				}
+				if strings.HasSuffix(fn, ".Seek") {
+					seeks++
+				}
+			}
+			return true
+		})
+		whole = copies == 1 && okCopies == 1 && seeks == 0 && assigns[fileVar] == 1
+	} else {
+		f.miss = append(f.miss, "SecureConfig.Check")
+	}
+	f.lean = append(f.lean, fmt.Sprintf("def secureCheck : Secure.CheckParams := ⟨%s, 0⟩", leanBool(whole)))
+	detail["checkHashesWholeFile"] = whole
 	f.lean = append(f.lean, fmt.Sprintf("def secure : Secure.Params := ⟨%s, %s, %s, %s, %s⟩",
 		leanBool(reattachGuard), leanBool(checkBeforeLaunch), leanBool(errReturns), leanBool(mismatchReturns), leanBool(checksCmdPath)))
 	detail["reattachGuard"] = reattachGuard
